@@ -84,3 +84,4 @@ def run(ctx, cases_override=None):
         for x in f: x["theorem"] = "correspondence drv_kernels (%s, OMP_NUM_THREADS=%s) vs Kernels.v; spec theorems C07" % (x["op"], nt)
         fails += f
     return fails
+MODEL = "kernels"
